@@ -17,23 +17,22 @@ subprocess.run(["git", "-C", "/repo", "worktree", "remove", "--force", wt], capt
 subprocess.run(["git", "-C", "/repo", "worktree", "add", "-q", "--detach", wt, "HEAD"], check=True)
 out = {"repo_head": subprocess.run(["git", "-C", "/repo", "rev-parse", "--short", "HEAD"], capture_output=True, text=True).stdout.strip()}
 try:
-    # place demo files
-    placed = []
-    readme = ""
-    for fn in os.listdir(os.path.join(src, "demo")):
-        if fn.lower().startswith("readme"):
-            readme = open(os.path.join(src, "demo", fn)).read()
-    for m in re.finditer(r"[Pp]lace\s+(\S+)\s+(?:at|in|into|under):?\s+(\S+)", readme):
-        f, dst = m.group(1), m.group(2).rstrip(".,;")
-        if not dst.endswith(f):
-            dst = os.path.join(dst, f)
-        if os.path.exists(os.path.join(src, "demo", f)):
-            os.makedirs(os.path.dirname(os.path.join(wt, dst)), exist_ok=True)
-            shutil.copy(os.path.join(src, "demo", f), os.path.join(wt, dst))
-            placed.append(dst)
-    out["demo_placed"] = placed
-    clean = lambda c: re.split(r"\s{2,}\(", c)[0]
+    # place demo files: into the package directory the demo command tests
+    def clean(c):
+        c = re.split(r"\s{2,}\(", c)[0]
+        c = re.sub(r"cd /tmp/seed_\w+\s*&&\s*", "", c)
+        c = re.sub(r"cp SEED/\S+ \S+\s*&&\s*", "", c)
+        return c.strip()
     demo_cmd, suite_cmd = clean(meta["commands"]["demo"]), clean(meta["commands"]["suite"])
+    m = re.search(r"(?:cd\s+(\S+)\s*&&.*?)?go test\b.*?\s(\./\S*|\.)\s*\)?\s*$", demo_cmd)
+    pkgdir = os.path.normpath(os.path.join(m.group(1) or ".", m.group(2))) if m else meta.get("demo_location", ".")
+    placed = []
+    for fn in os.listdir(os.path.join(src, "demo")):
+        if fn.endswith(".go"):
+            os.makedirs(os.path.join(wt, pkgdir), exist_ok=True)
+            shutil.copy(os.path.join(src, "demo", fn), os.path.join(wt, pkgdir, fn))
+            placed.append(os.path.join(pkgdir, fn))
+    out["demo_placed"] = placed
     rc0, o0 = sh(demo_cmd)
     out["demo_without_change"] = "pass" if rc0 == 0 else "fail"
     out["demo_without_tail"] = o0[-600:]
